@@ -80,6 +80,10 @@ def R1_gate(ctx):
     some2 = ("agg", "std::option::Option", "Some", (("0", some[3][0][1]),))
     none = ("agg", "std::option::Option", "None", ())
     okl = le in (mk_phi([none, some]), mk_phi([none, some2]))
+    if not okl:
+        # the same value written with adaptors: get_last_traversed_edge_id(..)?.map(|id| graph.get_edge(id)).transpose()?
+        le2 = nosite(deep_strip(norm_adaptors(ctx.F, le)))
+        okl = le2 == some[3][0][1] or le2 in (mk_phi([none, some]), mk_phi([none, some2]))
     ctx.check(okl, "gate-last-edge", "previous_edge is not Some(get_edge(get_last_traversed_edge_id(popped, source, tree))) / None: %s" % short(le), vf.where(), detail=short(le))
     # get_last_traversed_edge_id: source => None ; else tree[v].edge_traversal.edge_id ; missing => Err
     g = ctx.F.need(astar.A + "a_star::a_star_algorithm::get_last_traversed_edge_id")
@@ -276,17 +280,40 @@ def R3_predicates(ctx):
     tb = F.need(vf_impl(CFG + "turn_restrictions::turn_restriction_model::TurnRestrictionFrontierModel"))
     rows = [r for r in table(tb) if r.end == "return"]
     pair_ok = None
+    truth = {}
+    want = (("prev_edge_id", ("field", ("arg", 4), "edge_id")), ("next_edge_id", ("field", ("arg", 2), "edge_id")))
+
+    def is_member(bt):
+        return bt[0] == "call" and bt[1].startswith("std::collections::HashSet::<T, S, A>::contains")
+
+    def check_pair(bt):
+        pair = bt[2][1]
+        return pair[0] == "agg" and pair[1].endswith("::RestrictedEdgePair") and tuple(sorted(pair[3])) == tuple(sorted(want)) and bt[2][0] == ("field", ("field", ("arg", 1), "service"), "restricted_edge_pairs")
+
     for r in rows:
         v = r.sel.get(("arg", 4))
         if v == "None":
             ctx.check(truthy(r.ret, True), "turn:no-previous=>true", "without a previous edge the turn model does not permit: %s" % short(r.ret), tb.where())
         elif v == "Some":
-            for bt, lab in r.bools:
-                if bt[0] == "call" and bt[1].startswith("std::collections::HashSet::<T, S, A>::contains"):
-                    pair = bt[2][1]
-                    want = (("prev_edge_id", ("field", ("arg", 4), "edge_id")), ("next_edge_id", ("field", ("arg", 2), "edge_id")))
-                    pair_ok = pair[0] == "agg" and pair[1].endswith("::RestrictedEdgePair") and tuple(sorted(pair[3])) == tuple(sorted(want)) and bt[2][0] == ("field", ("field", ("arg", 1), "service"), "restricted_edge_pairs")
-                    ctx.check(truthy(r.ret, not cond_truth(lab)), "turn:member=%s" % cond_truth(lab), "restricted pair membership %s does not give %s: %s" % (cond_truth(lab), not cond_truth(lab), short(r.ret)), tb.where())
+            branched = [(bt, lab) for bt, lab in r.bools if is_member(bt)]
+            for bt, lab in branched:
+                pair_ok = check_pair(bt) if pair_ok is None else (pair_ok and check_pair(bt))
+                if truthy(r.ret, True):
+                    truth[cond_truth(lab)] = True
+                elif truthy(r.ret, False):
+                    truth[cond_truth(lab)] = False
+            if not branched:
+                # unbranched spelling: Ok(!set.contains(pair)) / Ok(set.contains(pair))
+                pay = agg_payload(r.ret) if result_variant(r.ret) == "Ok" else r.ret
+                neg = False
+                if pay is not None and pay[0] == "un" and pay[1] == "Not":
+                    pay, neg = pay[2], True
+                if pay is not None and is_member(pay):
+                    pair_ok = check_pair(pay) if pair_ok is None else (pair_ok and check_pair(pay))
+                    truth[True] = not neg
+                    truth[False] = neg
+    ctx.check(truth.get(True) is False, "turn:member=True", "a restricted pair is not refused (membership true must give false): %s" % truth, tb.where(), detail="member => false")
+    ctx.check(truth.get(False) is True, "turn:member=False", "an unrestricted pair is not permitted (membership false must give true): %s" % truth, tb.where(), detail="not member => true")
     ctx.check(bool(pair_ok), "turn:pair", "the tested pair is not {prev: previous_edge.edge_id, next: edge.edge_id} against service.restricted_edge_pairs", tb.where())
     # NoRestriction
     nb = F.bodies.get(vf_impl("routee_compass_core::model::frontier::default::no_restriction::NoRestriction")) or F.need(FM + "::valid_frontier")
@@ -321,6 +348,10 @@ def R4_who_may_call(ctx):
             if c.func.get("method") == "valid_frontier" and (c.func.get("trait") == FM or (c.callee or "").endswith("::valid_frontier")):
                 root = b.raw.get("parent") or b.path
                 ok = root in allowed or "edge_rtree" in root
+                if not ok and known_functions() and root not in known_functions():
+                    # a helper that did not exist when the rules were written: allowed when all its callers are
+                    callers = {x.split("::{closure")[0] for x in F.callers_index().get(root, ())}
+                    ok = bool(callers) and all(x in allowed or "edge_rtree" in x for x in callers)
                 ctx.check(ok, "caller:%s" % root.split("::")[-1] if "::" in root else root, "valid_frontier called from an unexpected place: %s" % root, c.where(), detail=allowed.get(root, "edge map matcher"))
 
 
@@ -362,4 +393,60 @@ def S0(ctx):
     common.S0_order(ctx, "C04.S0", ["routee_compass_core::model::unit::cost::Cost", "routee_compass_core::model::unit::distance::Distance", "routee_compass_core::model::unit::weight::Weight", "routee_compass_core::model::unit::internal_float::InternalFloat"])
 
 
-RULES = [R1_gate, R1b_strict_relaxation, R2_conjunction, R3_predicates, R3b_parser, R4_who_may_call, R5_pair_order, S0]
+def R6_plumbing(ctx):
+    """C04.R6 the restriction data the predicates are evaluated on is the configured / requested data"""
+    F = ctx.F
+    ctx.rule("C04.R6", "vehicle_restriction_lookup_from_file appends every row of the table to the list of its own edge (no row replaces another); the road-class and vehicle-restriction services hand the value parsed from this query to the model unmodified, together with the shared lookup", floor=3)
+    U = lambda t: rewrite(nosite(deep_strip(t)), lambda x: unmut(x) if x[0] == "mut" else None)
+    b = F.need(CFG + "vehicle_restrictions::vehicle_restriction_builder::vehicle_restriction_lookup_from_file")
+    loops = b.natural_loops()
+    ok = len(loops) == 1
+    why = "expected one loop over the rows"
+    if ok:
+        h = loops[0][0]
+        rows = iteration_table(b, h)
+        backs = [r for r in rows if r.kind == "back"]
+        ok = bool(backs)
+        for r in backs:
+            nxs = [U(v) for _, k, v in r.sites if k and itm(k, "next")]
+            trs = [U(v) for _, k, v in r.sites if (k or "").endswith("RestrictionRow::to_restriction")]
+            pushes = [U(v) for _, k, v in r.sites if (k or "").startswith("std::vec::Vec::<T, A>::push")]
+            if len(nxs) != 1 or len(trs) != 1 or len(pushes) != 1:
+                ok, why = False, "a turn does not convert one row and push one restriction (next %d, to_restriction %d, push %d): a table collected into a map keeps only one row per edge" % (len(nxs), len(trs), len(pushes))
+                continue
+            row = nxs[0]
+            recv, val = pushes[0][2]
+            ent = [x for x in subterms(recv) if x[0] == "call" and x[1].startswith("std::collections::HashMap::<K, V, S, A>::entry")]
+            grow = recv[0] == "call" and re.search(r"Entry::<'a, K, V>::(or_default|or_insert_with|or_insert)$", recv[1]) is not None and len(ent) == 1 and ent[0][2][1] == ("field", row, "edge_id")
+            ok = ok and grow and val == trs[0] and trs[0][2][0] == row and contains(row, lambda q: q[0] == "call" and q[1].endswith("read_utils::from_csv"))
+            if not (grow and val == trs[0]):
+                why = "the converted restriction is not pushed onto map.entry(row.edge_id).or_default(): %s" % short(recv)[:120]
+        rets = [r for r in rows if r.kind == "return" and result_variant(U(r.ret)) == "Ok"]
+        ok = ok and bool(rets)
+    ctx.check(ok, "restriction-table:every-row-appended", why, b.where(), detail="for row in rows: map.entry(row.edge_id).or_default().push(row.to_restriction()?)")
+    # services
+    FMS = "routee_compass_core::model::frontier::frontier_model_service::FrontierModelService"
+    for svc, model, field, src in (
+        (CFG + "road_class::road_class_service::RoadClassFrontierService", CFG + "road_class::road_class_model::RoadClassFrontierModel", "road_classes", ("call", CFG + "road_class::road_class_parser::RoadClassParser::read_query", (("field", ("arg", 1), "road_class_parser"), ("arg", 2)))),
+        (CFG + "vehicle_restrictions::vehicle_restriction_service::VehicleRestrictionFrontierService", CFG + "vehicle_restrictions::vehicle_restriction_model::VehicleRestrictionFrontierModel", "vehicle_parameters", ("call", CFG + "vehicle_restrictions::vehicle_parameters::VehicleParameters::from_query", (("arg", 2),))),
+    ):
+        sb = F.need("<%s as %s>::build" % (svc, FMS))
+        oks = [r for r in table(sb, max_paths=100000) if r.end == "return" and result_variant(r.ret) == "Ok"]
+        good = bool(oks)
+        det = ""
+        for r in oks:
+            aggs = [x for x in subterms(U(r.ret)) if x[0] == "agg" and x[1] == model]
+            if len(aggs) != 1:
+                good = False
+                continue
+            fl = dict(aggs[0][3])
+            v = fl.get(field)
+            # error adaptors do not change the Ok payload
+            v = rewrite(v, lambda x: x[2][0] if x[0] == "call" and re.search(r"Result::<T, E>::map_err$", x[1]) else None) if v is not None else None
+            good = good and v == src and fl.get("service") == ("arg", 1)
+            det = short(v)[:120] if v is not None else "missing"
+        inst = svc.split("::")[-1]
+        ctx.check(good, "%s:%s-from-this-query-unmodified" % (inst, field), "the model's %s is not exactly what was parsed from this query (filtered, defaulted or replaced?): %s" % (field, det), sb.where(), detail="%s = %s" % (field, short(src)[:80]))
+
+
+RULES = [R1_gate, R1b_strict_relaxation, R2_conjunction, R3_predicates, R3b_parser, R4_who_may_call, R5_pair_order, S0, R6_plumbing]
